@@ -253,3 +253,31 @@ Proof.
     + unfold f. rewrite tau_sigma; [reflexivity|apply Oin; exact I1].
 Qed.
 End Canon.
+
+(* ------------------------------------------------------------------ remap_graph, list form *)
+Lemma combine_swap (vals l : list N) : combine vals l = map swap (combine l vals).
+Proof. revert l. induction vals as [|v vals IH]; intros [|x l]; simpl; auto. f_equal. apply IH. Qed.
+Lemma swap_swap (m : list (N * N)) : map swap (map swap m) = m.
+Proof. rewrite map_map. rewrite (map_ext _ (fun p => p)) by (intros [? ?]; reflexivity). apply map_id. Qed.
+
+(** for a duplicate-free list of ALL nodes the list form relabels every node to its 1-based position *)
+Theorem remap_graph_list_spec (H : mgraph) (l : list N) : wf H -> NoDup l -> (forall n, In n l <-> In n (node_ids H)) -> l <> [] ->
+  remap_graph_list H l = Some (relabel (sigma_of l) H).
+Proof.
+  intros WH Hnd Hin Hne. unfold remap_graph_list.
+  rewrite combine_swap. fold (C08_Model.mapping_of l).
+  assert (Hm : map swap (C08_Model.mapping_of l) <> []).
+  { destruct l as [|x r]; [congruence|]. unfold C08_Model.mapping_of. simpl. discriminate. }
+  rewrite (remap_graph_ne H _ Hm). f_equal.
+  rewrite remap_mapping_spec by (rewrite map_snd_swap, mapping_of_keys; exact Hnd). rewrite swap_swap.
+  assert (Hag : forall n, In n (node_ids H) -> apply_map (C08_Model.mapping_of l) n = tau l [] n).
+  { intros n I. rewrite (tau_sigma l [] n) by (apply Hin; exact I). unfold apply_map, sigma_of, C08_Model.apply_map.
+    destruct (assoc n (C08_Model.mapping_of l)) eqn:E; [reflexivity|].
+    exfalso. apply assoc_none in E. apply E. rewrite mapping_of_keys. apply Hin. exact I. }
+  rewrite (nx_relabel_ext _ (tau l []) H).
+  - rewrite (nx_relabel_inj (tau l []) (tau_injective l []) H WH). apply relabel_ext.
+    + intros n I. apply tau_sigma. apply Hin. exact I.
+    + intros a b x I. destruct WH as (_ & W2 & _). destruct (W2 a b x I) as (Ia & Ib & _). split; apply tau_sigma; apply Hin; assumption.
+  - exact Hag.
+  - intros a b x I. destruct WH as (_ & W2 & _). destruct (W2 a b x I) as (Ia & Ib & _). split; apply Hag; assumption.
+Qed.
